@@ -211,6 +211,7 @@ func (e *Evaluator) evalString(str string) (*Cell, error) {
 }
 
 func (e *Evaluator) evalExpr(expr Expr) (*Cell, error) {
+	verifCharge(1)
 	switch exp := expr.(type) {
 	case *ExprLiteral:
 		switch exp.token.Tag {
@@ -635,6 +636,7 @@ func (e *Evaluator) evalBinaryExpr(expr *ExprBinary) (*Cell, error) {
 			// string concat
 			leftStr := left.Value.String()
 			rightStr := right.Value.String()
+			verifCharge((len(leftStr)+len(rightStr))/32 + 1)
 			return NewCell(NewValue(leftStr + rightStr)), nil
 		}
 
@@ -845,6 +847,7 @@ func (e *Evaluator) evalExprList(exprs []Expr, copy bool) ([]*Cell, error) {
 }
 
 func (e *Evaluator) evalStatement(stmt Statement) error {
+	verifCharge(1)
 	switch st := stmt.(type) {
 	case *StatementBlock:
 		for _, s := range st.Body {
